@@ -56,6 +56,16 @@ pub mod u3v {
             Conform(Vec<Edit>),
             Raw(Vec<u8>),
             RecvErr(u8),
+            /// Nothing is ready before this many (real) milliseconds have passed since the previous transfer of the
+            /// transaction: the device is busy, as it announced in a pending acknowledge.
+            Wait(u32),
+        }
+
+        /// What a receive with a given time-out meets (see `World::gate`).
+        pub enum Gate {
+            Go,
+            TimedOut,
+            Forever,
         }
 
         /// Plan for one transaction (one `send`).
@@ -109,6 +119,8 @@ pub mod u3v {
             pub submit_errs: std::collections::HashMap<usize, u8>,
             pub mem_writes: Vec<(u64, Vec<u8>)>,
             pub mem_reads: Vec<(u64, usize)>,
+            /// when the previous bulk transfer of the control channel ended
+            pub last_io: std::time::Instant,
         }
 
         impl World {
@@ -128,6 +140,7 @@ pub mod u3v {
                     submit_err_at: None,
                     submits: 0,
                     submit_errs: std::collections::HashMap::new(),
+                    last_io: std::time::Instant::now(),
                     mem_writes: vec![],
                     mem_reads: vec![],
                 }
@@ -222,7 +235,33 @@ pub mod u3v {
                 self.log.push(Ev::Send(cmd.to_vec()));
                 self.cur_ack = self.conform(cmd);
                 self.replies = plan.replies.into_iter().collect();
+                self.last_io = std::time::Instant::now();
                 Ok(cmd.len())
+            }
+
+            /// libusb's view of a receive with `timeout` (0 = wait without limit): a scripted `Wait` keeps the device
+            /// silent for its (real) time - the receive waits for it when its time-out allows, else it times out at
+            /// once (the reply stays queued: the device will still send it); with time-out 0 and nothing ever to
+            /// come the real call never returns.
+            pub fn gate(&mut self, timeout: std::time::Duration) -> Gate {
+                loop {
+                    match self.replies.front() {
+                        Some(Reply::Wait(ms)) => {
+                            let ready = self.last_io + std::time::Duration::from_millis(u64::from(*ms));
+                            let now = std::time::Instant::now();
+                            if now < ready {
+                                if !timeout.is_zero() && now + timeout < ready {
+                                    self.log.push(Ev::Recv(usize::MAX));
+                                    return Gate::TimedOut;
+                                }
+                                std::thread::sleep(ready - now);
+                            }
+                            self.replies.pop_front();
+                        }
+                        None if timeout.is_zero() => return Gate::Forever,
+                        _ => return Gate::Go,
+                    }
+                }
             }
 
             pub fn nothing_to_receive(&self) -> bool {
@@ -243,6 +282,11 @@ pub mod u3v {
                         return Err(usb_err(e));
                     }
                     Reply::Raw(b) => b,
+                    Reply::Wait(_) => {
+                        // (only reached when a caller skipped `gate`) treated as silence
+                        self.log.push(Ev::Recv(usize::MAX));
+                        return Err(usb_err(6));
+                    }
                     Reply::Pending(ms) => {
                         let mut s = vec![0u8, 0u8];
                         s.extend_from_slice(&ms.to_le_bytes());
@@ -279,6 +323,7 @@ pub mod u3v {
                     self.log.push(Ev::Recv(usize::MAX));
                     return Err(usb_err(7)); // libusb overflow
                 }
+                self.last_io = std::time::Instant::now();
                 buf[..bytes.len()].copy_from_slice(&bytes);
                 self.log.push(Ev::Recv(bytes.len()));
                 Ok(bytes.len())
@@ -384,10 +429,13 @@ pub mod u3v {
         pub fn recv(&self, buf: &mut [u8], timeout: Duration) -> Result<usize> {
             // libusb_bulk_transfer: a time-out of 0 means "wait without limit".  When nothing will ever arrive the
             // real call never returns: the fake does the same (the harness' watchdog reports the hang).
-            if timeout.is_zero() && self.world.lock().unwrap().nothing_to_receive() {
-                loop {
+            let g = self.world.lock().unwrap().gate(timeout);
+            match g {
+                sim::Gate::Forever => loop {
                     std::thread::sleep(Duration::from_secs(3600));
-                }
+                },
+                sim::Gate::TimedOut => return Err(sim::usb_err(6)),
+                sim::Gate::Go => {}
             }
             self.world.lock().unwrap().on_recv(buf)
         }
